@@ -14,25 +14,38 @@ def gen_group(rng, nq):
     rt = rkeys + [rng.choice(["i64", "str"])]
     null_p = rng.choice([0.0, 0.2, 0.4])
     a = relgen.gen_table(rng, "ta", lt, null_p=null_p)
-    b = relgen.gen_table(rng, "tb", rt, null_p=null_p)
+    many = rng.random() < 0.3
+    if many:
+        # the batch-parallel probe paths need >= 32 probe batches and a probe side more than twice the build side:
+        # a larger left table delivered as many tiny batches, joined to a small right table
+        a = relgen.gen_table(rng, "ta", lt, nrows=rng.choice([40, 70]), null_p=null_p)
+        a["batch_sizes"] = [rng.choice([1, 1, 2]) for _ in range(len(a["rows"]))]
+    b = relgen.gen_table(rng, "tb", rt, nrows=(rng.choice([2, 3, 5]) if many else None), null_p=null_p)
+    if many:
+        # make key matches likely: copy some left keys into the right table
+        for r in b["rows"]:
+            src = rng.choice(a["rows"])
+            for i in range(len(keys)):
+                if rng.random() < 0.7:
+                    r[i] = src[i]
     c = relgen.gen_table(rng, "tc", rkeys[:1] + ["i64"], null_p=null_p)
-    if rng.random() < 0.4:
+    if rng.random() < 0.4 and not many:
         b["parquet"] = {"files": [max(1, len(b["rows"]) // 2)], "row_group": rng.choice([1, 2, 1024])}
         b["batch_sizes"] = None
-    if rng.random() < 0.25:
+    if rng.random() < 0.25 and not many:
         a["parquet"] = {"row_group": rng.choice([1, 3, 1024])}
         a["batch_sizes"] = None
     wl = len(lt)
     qs = []
     for _ in range(nq):
-        jt = rng.choice(["JInner", "JInner", "JLeft", "JRight", "JFull", "JCross"])
+        jt = rng.choice(["JInner", "JLeft", "JLeft", "JFull", "JRight"] if many else ["JInner", "JInner", "JLeft", "JRight", "JFull", "JCross"])
         nk = rng.randint(1, len(keys))
         conj = None
         for i in range(nk):
             e = ("cmp", "CEq", col(i), col(wl + i))
             conj = e if conj is None else ("and", conj, e)
         kind = f"{jt}-{nk}key"
-        if rng.random() < 0.4:
+        if rng.random() < (0.8 if many else 0.4):
             # residual: compare payloads / literal on one side
             r = rng.choice([("cmp", "CNe", col(wl - 1), lit(relgen.gen_value(rng, lt[-1], 0.0))),
                             ("isnotnull", col(wl + len(rt) - 1)),
@@ -58,6 +71,7 @@ def run(ctx):
     for r in results:
         kinds[r["kind"]] = kinds.get(r["kind"], 0) + 1
     ctx.cov["input_distribution"] = {"by_shape": kinds, "groups": len(groups),
+        "groups_with_32plus_probe_batches": sum(1 for g in groups if len(g["tables"][0].get("batch_sizes") or []) >= 32),
         "parquet_sides": sum(1 for g in groups for t in g["tables"] if t.get("parquet")),
         "in_known_class": sum(1 for r in results if r["classes"])}
     ctx.cov["distinct_nontrivial"] = len({r["sql"] + str(r["group"]) for r in ran if r["n_sql_rows"] > 0})
